@@ -124,10 +124,9 @@ def judge_point(st, fn, call, tab, arg, kind, case, quick_nt=True, ns=None):
         return
     k = tab.locate(x)
     if k in tab.nonmono or (k - 1) in tab.nonmono or (k + 1) in tab.nonmono:
-        st.cls("excluded_nonmonotone")
-        if err is None and not math.isfinite(got):
-            st.violation("nonfinite:" + fn, dict(case, arg=arg), "finite", got)
-        return
+        # a shipped table with a decreasing abscissa step (CS_Photo, Z=96): the textbook bisection is still a deterministic function of the shipped
+        # knots, so the value is compared like everywhere else; only the knot-value rule below does not apply
+        st.cls("nonmonotone_neighbourhood")
     exp, k = tab.spline(x, k)
     if x > xn:
         st.cls("guard_band")
